@@ -363,9 +363,12 @@ func (k kindInfo) gvr() schema.GroupVersionResource {
 }
 
 // swapMapper: a RESTMapper whose set of known kinds can change at run time (CRD installed / removed); thread-safe.
+// Like client-go's DeferredDiscoveryRESTMapper over a caching discovery client it answers from a CACHED copy of what the API
+// server serves: a kind installed later is found only after Reset() (which the library must call when it hears of a CRD).
 type swapMapper struct {
 	mu     sync.RWMutex
-	inner  *meta.DefaultRESTMapper
+	live   *meta.DefaultRESTMapper // what the API server serves now
+	inner  *meta.DefaultRESTMapper // the cached copy lookups are answered from
 	resets int
 }
 
@@ -385,11 +388,14 @@ func buildMapper(kinds []kindInfo) *meta.DefaultRESTMapper {
 	return m
 }
 
-func newSwapMapper(kinds []kindInfo) *swapMapper { return &swapMapper{inner: buildMapper(kinds)} }
+func newSwapMapper(kinds []kindInfo) *swapMapper {
+	m := buildMapper(kinds)
+	return &swapMapper{live: m, inner: m}
+}
 func (s *swapMapper) set(kinds []kindInfo) {
 	m := buildMapper(kinds)
 	s.mu.Lock()
-	s.inner = m
+	s.live = m
 	s.mu.Unlock()
 }
 func (s *swapMapper) get() *meta.DefaultRESTMapper {
@@ -397,7 +403,7 @@ func (s *swapMapper) get() *meta.DefaultRESTMapper {
 	defer s.mu.RUnlock()
 	return s.inner
 }
-func (s *swapMapper) Reset() { s.mu.Lock(); s.resets++; s.mu.Unlock() }
+func (s *swapMapper) Reset() { s.mu.Lock(); s.resets++; s.inner = s.live; s.mu.Unlock() }
 func (s *swapMapper) KindFor(r schema.GroupVersionResource) (schema.GroupVersionKind, error) {
 	return s.get().KindFor(r)
 }
